@@ -11,6 +11,7 @@ COQ = '/verif/coq'
 # property -> list of (pinned theorem name, module, lemma)
 TABLE = {
  'C01': [
+  ('C01_closed_u64', 'Instances', 'run_refines_u64'), ('C01_closed_h256', 'Instances', 'run_refines_h256'), ('C01_nonvacuous_state', 'Instances', 'example_written'), ('C01_initial_state', 'Instances', 'SysInv_initial'),
   ('C01_get', 'IfaceP', 'iface_get_spec'), ('C01_len', 'IfaceP', 'iface_len_spec'),
   ('C01_get_mut_write', 'IfaceP', 'get_mut_write_spec'), ('C01_push', 'IfaceP', 'push_spec_list'),
   ('C01_push_full', 'IfaceP', 'push_spec_full'), ('C01_bulk', 'IfaceP', 'bulk_spec'),
@@ -21,6 +22,7 @@ TABLE = {
   ('C01_step_refines', 'Refine', 'step_refines'), ('C01_run_refines', 'Refine', 'run_refines'), ('C01_spec_det', 'Refine', 'spec_det'),
  ],
  'C02': [
+  ('C02_closed_h256', 'Instances', 'root_h256'), ('C02_scenario', 'Instances', 'scenario_spec'),
   ('C02_canon_merkle', 'HashP', 'shash_canon_merkle'), ('C02_merkleize_pad', 'HashP', 'merkleize_pad'),
   ('C02_depth', 'HashP', 'depth_is_chunk_depth'), ('C02_tree_hash', 'HashP', 'tree_hash_exact'),
   ('C02_root', 'HashP', 'root_is_ssz_hinv'), ('C02_root_run', 'HashP', 'root_is_ssz_run'),
@@ -36,6 +38,7 @@ TABLE = {
   ('C03_inv', 'Refine', 'step_refines'),
  ],
  'C04': [
+  ('C04_spec_frame', 'FinalP', 'spec_frame'), ('C04_versions_isolated', 'FinalP', 'versions_isolated'), ('C04_versions_isolated_obs', 'FinalP', 'versions_isolated_obs'),
   ('C04_hash_frame', 'HashP', 'mvalid_changes'), ('C04_intra_frame', 'IntraP', 'mvalid_hchanges'),
   ('C04_rebase_base_untouched', 'RebaseP', 'coll_rebase_on_spec'),
   ('C04_regs_frame', 'Refine', 'step_regs_frame'), ('C04_refines', 'Refine', 'step_refines'),
@@ -54,12 +57,15 @@ TABLE = {
   ('C06_eq', 'CollCtorP', 'coll_eqb_spec'), ('C06_eq_refines', 'RefineB', 'refines_OEq'), ('C06_run_refines', 'Refine', 'run_refines'),
  ],
  'C07': [
+  ('C07_hash_assumption_satisfiable', 'Instances', 'Hc_collision_free'),
+  ('C07_shape_cf', 'FinalP', 'rebase_shape_cf'), ('C07_shape_vec_cf', 'FinalP', 'rebase_shape_vec_cf'), ('C07_state_cf', 'FinalP', 'rebase_state_cf'), ('C07_coll_cf', 'FinalP', 'coll_rebase_on_hinv_cf'), ('C07_closed_h256', 'Instances', 'rebase_h256'),
   ('C07_shape', 'RebaseP', 'rebase_shape'), ('C07_shape_vec', 'RebaseP', 'rebase_shape_vec'),
   ('C07_state', 'RebaseP', 'rebase_state'), ('C07_coll', 'RebaseP', 'coll_rebase_on_hinv'),
   ('C07_coll_demonic', 'RebaseP', 'coll_rebase_on_dem'), ('C07_gok', 'CollObsP', 'coll_rebase_spec'),
   ('C07_hash_inj', 'HashP', 'shash_canon_inj'), ('C07_refines', 'RefineB', 'refines_ORebaseOn'), ('C07_refines_rebase', 'RefineB', 'refines_ORebase'),
  ],
  'C08': [
+  ('C08_paths_cf', 'FinalP', 'rebase_sharing_paths_cf'), ('C08_paths_vec_cf', 'FinalP', 'rebase_sharing_paths_vec_cf'), ('C08_coll_paths_cf', 'FinalP', 'sharing_paths_cf'), ('C08_sharing_cf', 'FinalP', 'rebase_sharing_cf'), ('C08_equal_share_all', 'FinalP', 'sharing_equal'), ('C08_fresh_on_differing_paths', 'FinalP', 'fresh_differs'),
   ('C08_sharing', 'RebaseP', 'rebase_sharing'), ('C08_sharing_vec', 'RebaseP', 'rebase_sharing_vec'),
   ('C08_sharing_exact', 'RebaseP', 'rebase_sharing_exact'), ('C08_coll', 'RebaseP', 'coll_rebase_on_sharing'),
  ],
@@ -71,6 +77,7 @@ TABLE = {
   ('C09_fixed_on_witness', 'IntraP', 'intra_fixed_on_witness'), ('C09_gok', 'CollObsP', 'coll_intra_spec_gok'), ('C09_refines', 'RefineB', 'refines_OIntra'),
  ],
  'C10': [
+  ('C10_rehash_only_new', 'FinalP', 'rehash_only_new'), ('C10_rehash_recomputed', 'FinalP', 'rehash_recomputed'), ('C10_flush_then_hash', 'FinalP', 'flush_rehash_only_new'),
   ('C10_flush_cost', 'WulP', 'wul_cost'), ('C10_flush_retain', 'WulP', 'wul_retain'), ('C10_flush_full', 'WulP', 'wul_full'),
   ('C10_size', 'BuilderP', 'snodes_canon_le'), ('C10_build_nodes', 'BuilderP', 'build_canon_nodes'),
   ('C10_repeat_nodes', 'RepeatP', 'repeat_nodes'), ('C10_pop_front_reuse', 'BuilderP', 'feed_canon_idf'),
@@ -84,6 +91,7 @@ TABLE = {
   ('C11_pop_front', 'CollCtorP', 'pop_front_spec'), ('C11_pop_front_slow', 'CollCtorP', 'pop_front_slow_spec'), ('C11_pop_front_oob', 'CollCtorP', 'pop_front_oob'), ('C11_level_iter_refines', 'RefineB', 'refines_OLevelIter'), ('C11_pop_front_refines', 'RefineA', 'refines_OPopFront'),
  ],
  'C12': [
+  ('C12_lawful_uint', 'Instances', 'ek_uintW_codec_on'), ('C12_lawful_h256', 'Instances', 'ek_h256W_codec_on'), ('C12_raw_kinds_agree', 'Instances', 'ek_uint_agree'),
   ('C12_enc_fixed', 'CodecP', 'enc_fixed_on'), ('C12_dec_enc_fixed', 'CodecP', 'dec_enc_fixed_on'),
   ('C12_dec_strict_fixed', 'CodecP', 'dec_strict_fixed_on'), ('C12_dec_enc_var', 'CodecP', 'dec_enc_var_on'),
   ('C12_dec_strict_var', 'CodecP', 'dec_strict_var_on'), ('C12_len_var', 'CodecP', 'ssz_len_var'),
@@ -100,6 +108,7 @@ TABLE = {
   ('C13_de_vec', 'CollObsP', 'vector_serde_de_ok'), ('C13_de_vec_wrong_len', 'CollObsP', 'vector_serde_de_fail'), ('C13_ser_refines', 'RefineB', 'refines_OSerdeSer'), ('C13_de_refines', 'RefineB', 'refines_OSerdeList'), ('C13_de_vec_refines', 'RefineB', 'refines_OSerdeVec'), ('C13_de_eq', 'CodecP', 'list_serde_de_eq'),
  ],
  'C14': [
+  ('C14_closed_u64', 'Instances', 'maps_unobservable_u64'),
   ('C14_vecmap', 'UMapP', 'vecmap_lawful'), ('C14_btmap', 'UMapP', 'btmap_lawful'), ('C14_maxmap', 'UMapP', 'maxmap_lawful'),
   ('C14_get', 'IfaceP', 'iface_get_spec'), ('C14_len', 'IfaceP', 'iface_len_spec'), ('C14_flush', 'WulP', 'wul_canon'),
   ('C14_bulk', 'IfaceP', 'bulk_spec'), ('C14_needs_exact_max', 'IfaceP', 'bulk_update_needs_max_exact'),
@@ -123,6 +132,7 @@ TABLE = {
   ('C16_mvalid_always', 'ConcP', 'tree_hash_pool_mvalid'), ('C16_private_ops_demonic', 'RebaseP', 'coll_rebase_on_dem'), ('C16_par_hash_refines', 'RefineB', 'refines_OParHash'), ('C16_par_mix_refines', 'RefineB', 'refines_OParMix'), ('C16_run_final', 'ConcP', 'tree_hash_run_final'),
  ],
  'C17': [
+  ('C17_incremental', 'FinalP', 'incremental_canon'), ('C17_inc_flag_true', 'FinalP', 'finish_inc_true'), ('C17_build_eq_incremental', 'FinalP', 'build_eq_incremental'),
   ('C17_build', 'BuilderP', 'build_canon_idf'), ('C17_push_full', 'BuilderP', 'push_full'),
   ('C17_invalid_depth', 'BuilderP', 'new_invalid_depth'), ('C17_push_node', 'BuilderP', 'feed_canon_idf'),
   ('C17_needs_values_at_level_0', 'BuilderP', 'feed_canon_needs_values_at_level_0'),
